@@ -1031,6 +1031,10 @@ def mk_server_cfg(args: ArgsType) -> configparser.SectionProxy:
             if test_cfg_val(opt, value):
                 # '%' must be doubled to survive ConfigParser's interpolation
                 cfg[opt] = arg2config(opt, opt_type, value).replace("%", "%%")
+            elif value not in NULL_ARGS:
+                # Same as the default, so not written - but then a different
+                # value stored earlier must not stay behind and win next time
+                USERCFG.remove_option(server, opt)
 
     return cfg
 
